@@ -59,6 +59,7 @@ type dTypeDecl struct {
 	Items   []dEnumItem `json:"items"`
 	Alias   dType       `json:"alias"`
 	Members []dType     `json:"members"`
+	Nested  []dTypeDecl `json:"-"` // types declared inside this one (the model sees them flattened: Outer.Inner)
 }
 type dChoice struct {
 	Cond string  `json:"cond"`
@@ -81,6 +82,7 @@ type dParam struct {
 	Attrs dAttrs `json:"attrs"`
 }
 type dEp struct {
+	shortcut bool // written `Name: ...` on one line (no statement)
 	Name   string   `json:"name"`
 	Long   string   `json:"long"`
 	Params []dParam `json:"params"`
@@ -239,7 +241,8 @@ func (g *c02Gen) ty(app []string, allowWrap bool) dType {
 			case 0:
 				t.Size, t.N1 = "max", 1+r.Intn(300)
 			case 1:
-				if t.Prim == "string" && t.Wrap == "" {
+				// a range spec; on int32/int64 the bit width must survive it
+				if t.Prim == "string" || t.Prim == "int" || t.Prim == "int32" || t.Prim == "int64" {
 					lo := r.Intn(5)
 					t.Size, t.N1, t.N2 = "range", lo, lo+1+r.Intn(50)
 				}
@@ -389,6 +392,14 @@ func genDFile(r *Rand, tier string) *dFile {
 					fd.Attrs.Tags = append([]string{"pk"}, fd.Attrs.Tags...)
 				}
 				td.Fields = append(td.Fields, fd)
+			}
+			if td.Kind == "type" && r.Chance(1, 5) {
+				// a type declared inside this one
+				in := dTypeDecl{Name: "In", Kind: "type", Attrs: g.attrs(false), Items: []dEnumItem{}, Members: []dType{}}
+				for k := 0; k < 1+r.Intn(3); k++ {
+					in.Fields = append(in.Fields, dField{Name: fmt.Sprintf("n%d", k), Ty: dType{Prim: Pick(r, c02Prims), RefApp: []string{}, RefPath: []string{}, Opt: r.Chance(1, 3)}, Attrs: emptyAttrs()})
+				}
+				td.Nested = append(td.Nested, in)
 			}
 			a.Types = append(a.Types, td)
 			_ = t
@@ -840,11 +851,17 @@ func (l *c02Layout) restAt(b *strings.Builder, ind string, n dRest, prefix strin
 	}
 }
 
-func (l *c02Layout) typeDecl(bp *strings.Builder, u string, t dTypeDecl) {
+func (l *c02Layout) typeDecl(bp *strings.Builder, u string, t dTypeDecl) { l.typeDeclAt(bp, u, t, t.Name) }
+
+// typeDeclAt writes a type at indentation ind; full is its name in the module (Outer.Inner for a nested type)
+func (l *c02Layout) typeDeclAt(bp *strings.Builder, ind string, t dTypeDecl, full string) {
+	u := ind
+	uu := ind + l.unit
+	uuu := ind + l.unit + l.unit
 	b := bp
 	r := l.r
 	tkv := !l.annoBody || r.Bool() || t.Kind == "union"
-	l.push(fmt.Sprintf(".types[%q]", t.Name))
+	l.push(fmt.Sprintf(".types[%q]", full))
 	defer l.pop()
 	l.mark(b, u, "!")
 	switch t.Kind {
@@ -855,11 +872,26 @@ func (l *c02Layout) typeDecl(bp *strings.Builder, u string, t dTypeDecl) {
 		}
 		b.WriteString(u + kw + " " + esc(t.Name) + l.inline(t.Attrs, tkv) + ":\n")
 		if !tkv {
-			l.annoLines(b, u+u, t.Attrs)
+			l.annoLines(b, uu, t.Attrs)
 		}
-		for _, fd := range t.Fields {
+		nestedAt := -1
+		if len(t.Nested) > 0 {
+			nestedAt = r.Intn(len(t.Fields) + 1) // before, between or after the fields
+		}
+		writeNested := func() {
+			saved := l.path
+			l.path = append([]string{}, saved[:len(saved)-1]...)
+			for _, nt := range t.Nested {
+				l.typeDeclAt(b, uu, nt, full+"."+nt.Name)
+			}
+			l.path = saved
+		}
+		for fi, fd := range t.Fields {
+			if fi == nestedAt {
+				writeNested()
+			}
 			if r.Chance(1, 12) {
-				l.filler(b, u+u)
+				l.filler(b, uu)
 			}
 			fkv := !l.annoBody || r.Chance(2, 3) || len(fd.Attrs.KV) == 0
 			if t.Kind == "table" {
@@ -867,15 +899,18 @@ func (l *c02Layout) typeDecl(bp *strings.Builder, u string, t dTypeDecl) {
 			} else {
 				l.push(fmt.Sprintf(".tuple.attr_defs[%q]", fd.Name))
 			}
-			l.mark(b, u+u, esc(fd.Name))
-			b.WriteString(u + u + esc(fd.Name) + " <: " + renderType(fd.Ty) + l.inline(fd.Attrs, fkv))
+			l.mark(b, uu, esc(fd.Name))
+			b.WriteString(uu + esc(fd.Name) + " <: " + renderType(fd.Ty) + l.inline(fd.Attrs, fkv))
 			if !fkv {
 				b.WriteString(":\n")
-				l.annoLines(b, u+u+u, fd.Attrs)
+				l.annoLines(b, uuu, fd.Attrs)
 			} else {
 				b.WriteString("\n")
 			}
 			l.pop()
+		}
+		if nestedAt == len(t.Fields) {
+			writeNested()
 		}
 	case "enum":
 		b.WriteString(u + "!enum " + t.Name + l.inline(t.Attrs, true) + ":\n")
@@ -884,11 +919,11 @@ func (l *c02Layout) typeDecl(bp *strings.Builder, u string, t dTypeDecl) {
 		}
 	case "alias":
 		b.WriteString(u + "!alias " + t.Name + l.inline(t.Attrs, true) + ":\n")
-		b.WriteString(u + u + renderType(t.Alias) + "\n")
+		b.WriteString(uu + renderType(t.Alias) + "\n")
 	case "union":
 		b.WriteString(u + "!union " + t.Name + l.inline(t.Attrs, true) + ":\n")
 		for _, m := range t.Members {
-			b.WriteString(u + u + renderType(m) + "\n")
+			b.WriteString(uu + renderType(m) + "\n")
 		}
 	}
 }
@@ -910,6 +945,11 @@ func (l *c02Layout) endpoint(b *strings.Builder, u string, e dEp) {
 		long = " " + l.q(e.Long)
 	}
 	// named values may also be written as annotation lines at the head of the body
+	if e.shortcut {
+		l.mark(b, u, esc(e.Name))
+		b.WriteString(u + esc(e.Name) + ": ...\n")
+		return
+	}
 	kvInline := !l.annoBody || l.r.Bool() || len(e.Attrs.KV) == 0
 	if len(e.Stmts) == 0 {
 		kvInline = false // a body of annotation lines only
@@ -1011,6 +1051,27 @@ func renderDFileMarked(f *dFile, r *Rand, file string, marks *[]c08Mark, stmtBas
 	return b.String()
 }
 
+// flattenNested: the description the model reads has a nested type as a type of its own named Outer.Inner
+func flattenNested(d *dFile) *dFile {
+	out := &dFile{}
+	for _, a := range d.Apps {
+		na := a
+		na.Types = nil
+		for _, t := range a.Types {
+			nt := t
+			nt.Nested = nil
+			na.Types = append(na.Types, nt)
+			for _, n := range t.Nested {
+				fn := n
+				fn.Name = t.Name + "." + n.Name
+				na.Types = append(na.Types, fn)
+			}
+		}
+		out.Apps = append(out.Apps, na)
+	}
+	return out
+}
+
 // ---------- harness ----------
 
 func init() { runners["C02"] = runC02 }
@@ -1079,7 +1140,7 @@ func runC02(res *Result, tier string, rnd *Rand, replay string) {
 			j.rows = dumpModuleRows(m)
 		}()
 		jobs = append(jobs, j)
-		reqs = append(reqs, map[string]any{"op": "compile.rows", "file": d})
+		reqs = append(reqs, map[string]any{"op": "compile.rows", "file": flattenNested(d)})
 	}
 	outs, err := RunOracleChunks(reqs, workers(8))
 	if err != nil {
